@@ -25,6 +25,7 @@ a = sh(f"cd {wt} && git apply {out}/patch.diff || patch -p1 < {out}/patch.diff")
 r1 = sh(env)                                         # with change
 sh(f"git -C {wt} checkout -- nifty")
 meta = dict(name=name, property=prop, needs_to_manifest=needs,
+            prompt_framing=os.environ.get("SEED_FRAMING", "neutral (round two: property text + worktree, no purpose stated)"),
             demo_unchanged_rc=r0.returncode, demo_with_change_rc=r1.returncode,
             demo_with_change_tail=(r1.stdout + r1.stderr)[-600:],
             ran=[f"demo.py on unchanged worktree -> rc {r0.returncode}", f"demo.py with patch -> rc {r1.returncode}"])
